@@ -188,6 +188,30 @@ theorem call_list (s : A → C) (fs : List (A → C)) (args : A) (skip : Bool) :
   congr 1
   rw [id_bind, foldlM_id_list]; simp
 
+/-- a source that returns the SAME Python list object on every call: `list_combiner` appends to that object
+in place, so what the source returns at the next call is what the previous call left. One call maps
+the content `L` to `L ++ [m₁ args, …, mₙ args]` (`call_trace_list` with `src := fun _ => L`) … -/
+def growOnce (fs : List (A → C)) (args : A) (L : List C) : List C := L ++ fs.map (· args)
+
+/-- … hence after `n` calls (with the same arguments) the object holds the original content followed
+by `n` copies of the modifiers' entries – every call by itself is "source value, then one appended entry
+per modifier", the growth is the source's own aliasing. -/
+theorem aliased_source_accumulates (fs : List (A → C)) (args : A) (L : List C) (n : Nat) :
+    (Nat.repeat (growOnce fs args) n L) = L ++ (List.replicate n (fs.map (· args))).flatten := by
+  induction n with
+  | zero => simp [Nat.repeat]
+  | succ n ih =>
+    simp only [Nat.repeat, ih, growOnce, List.replicate_succ', List.flatten_append, List.flatten_cons,
+      List.flatten_nil, List.append_nil, List.append_assoc]
+
+/-- a call has no memory of its own: `Pipeline.call` is a function of the pipeline, the arguments and the
+skip flag – repeating a call verbatim gives the same computation (any difference between two results
+comes from the callables' own state or from what the post-processor reads at that moment, e.g. the
+step sizes, which are inputs: `rescale st`). -/
+theorem call_repeat {m' : Type → Type} [Monad m'] {M' : Type} (p : Pipeline m' A V M') (args args' : A) (skip skip' : Bool)
+    (h1 : args = args') (h2 : skip = skip') : p.call args skip = p.call args' skip' := by
+  subst h1; subst h2; rfl
+
 /-! ### registration -/
 
 variable {m : Type → Type} {M : Type}
